@@ -53,6 +53,16 @@ F1BRecv(ky) == UNION { { [kind |-> "f1", op |-> op, A |-> << <<b>> >>, B |-> y, 
 F1BArg(ky) == UNION { { [kind |-> "f1", op |-> op, A |-> y, B |-> << <<b>> >>, ta |-> ta, tb |-> "Bounds", w |-> WB] :
                            op \in Ops, b \in Reps(SBB, y), ta \in TypesFor(ky) } : y \in Partners(SA)[ky] }
 F1B == IF NBB = 0 THEN {} ELSE F1BRecv("holed") \cup F1BRecv("two") \cup F1BArg("holed") \cup F1BArg("two")
+(* F1C: containment.  A big box B = [2,18]^2 on the odd lattice contains a box, a holed box and a pair of boxes on the even
+   lattice {4,8,12,16}; every type spelling on both sides, both argument positions, all four operations (the shortcuts that
+   return an operand unchanged are taken here). *)
+BigB == << <<Box(2, 2, 18, 18)>> >>
+InA == [box |-> << <<Box(4, 4, 16, 16)>> >>, holed |-> << <<Box(4, 4, 16, 16), Box(8, 8, 12, 12)>> >>,
+        two |-> << <<Box(4, 4, 8, 16)>>, <<Box(12, 4, 16, 8)>> >>]
+F1C == UNION { { [kind |-> "f1", op |-> op, A |-> InA[k], B |-> BigB, ta |-> ta, tb |-> tb, w |-> 20] :
+                    op \in Ops, ta \in TypesFor(k), tb \in TypesFor("box") } : k \in Kinds }
+       \cup UNION { { [kind |-> "f1", op |-> op, A |-> BigB, B |-> InA[k], ta |-> ta, tb |-> tb, w |-> 20] :
+                    op \in Ops, ta \in TypesFor("box"), tb \in TypesFor(k) } : k \in Kinds }
 (* F2: lattice triangles and quadrilaterals (coordinates x 4), valid and in general position *)
 Grid2 == {<<4 * x, 4 * y>> : x \in 0..F2N, y \in 0..F2N}
 Tri == TLCEval({r \in [1..3 -> Grid2] : HashP(r, 1) % MF2 = 0 /\ SimpleRing(r)})
@@ -64,6 +74,6 @@ F2 == { [kind |-> "f2", op |-> op, A |-> << <<p[1]>> >>, B |-> << <<p[2]>> >>, t
 (* the same operations at other magnitudes (coordinates times 2^sh, exact) *)
 Shifted == {[kind |-> x.kind, op |-> x.op, A |-> x.A, B |-> x.B, ta |-> x.ta, tb |-> x.tb, w |-> x.w, sh |-> s] :
                x \in {y \in F1Thin : (HashS(y.A) + HashS(y.B)) % 4 = 0}, s \in {-20, 24}}
-GenInit == c \in F1Thin \cup F1B \cup Shifted \cup (IF F2N = 0 THEN {} ELSE F2) /\ PrintT(ToJson(c))
+GenInit == c \in F1Thin \cup F1B \cup F1C \cup Shifted \cup (IF F2N = 0 THEN {} ELSE F2) /\ PrintT(ToJson(c))
 GenSpec == GenInit /\ [][UNCHANGED c]_c
 =============================================================================
